@@ -149,9 +149,9 @@ func r012Scope(c *an.Ctx) {
 
 // reviewedDivisions: divisors whose non-zero-ness follows from facts outside the function.
 var reviewedDivisions = map[string]string{
-	"expr.byEnum#r.Int() % count":          "hasEnumValidation (tested on entry) holds only when the enum has at least one value",
-	"expr.patgen#r.Int() % len(re.Sub)":    "regexp/syntax guarantees an OpAlternate node has at least two sub-expressions",
-	"expr.patgen#r.Int() % len(chars)":     "a character class node of a simplified regexp has at least one rune range, so chars is non-empty",
+	"expr.byEnum#r.Int() % count":       "hasEnumValidation (tested on entry) holds only when the enum has at least one value",
+	"expr.patgen#r.Int() % len(re.Sub)": "regexp/syntax guarantees an OpAlternate node has at least two sub-expressions",
+	"expr.patgen#r.Int() % len(chars)":  "a character class node of a simplified regexp has at least one rune range, so chars is non-empty",
 }
 
 func r015Modulo(c *an.Ctx) {
